@@ -65,7 +65,8 @@ def data(p):
         Xt = torch.cat([Xt[:40], onehots(40)], dim=1)
     if p['task'] == 'reg':
         f = lambda Z: torch.cat([torch.sin(2 * Z[:, :1]), Z[:, 1:2] ** 2][: p['outputs']], dim=1)
-        return X, f(X) + 0.05 * torch.randn(n, p['outputs'], generator=g), Xv, f(Xv), Xt
+        off = float(p.get('yoffset', 0.0))       # targets with a large common offset (a level far from zero, spread of order one)
+        return X, f(X) + 0.05 * torch.randn(n, p['outputs'], generator=g) + off, Xv, f(Xv) + off, Xt
     K = p['classes']
     f = lambda Z: (Z[:, 0] * 1.5 + Z[:, 1]).floor().long().remainder(K)
     y, yv = f(X), f(Xv)
@@ -255,6 +256,13 @@ def gen_cases(run):
                           bandwidth=5.0, iters=1, L=1000, n=[90, 140][k // 2], d=3, method='random', trees=1 + k // 2, f=0.0,
                           mode=['zero_one', 'prevalence'][k // 2], metric=metric, tune=False, temp=None, space=None, set_temp_after=None,
                           keep=0.99, cap=12, outputs=1, classes=2, pickle=bool(k % 2), dseed=r.randint(0, 10 ** 6)))
+    # regression targets far from zero (level 2e4 / -3e3, spread of order one), hard and soft routing, one and two trees
+    for k in range(3):
+        cases.append(dict(family='fitted-models', task='reg', kernel=list(KERNELS[k % len(KERNELS)]), q=1.0, diag=bool(k % 2), adaptive=False,
+                          bandwidth=5.0, iters=1, L=[40, 1000, 30][k], n=120, d=3, method='random', trees=1 + k % 2, f=0.0, mode='zero_one',
+                          metric=None, tune=(k == 2), temp=[None, 0.3, None][k], space=[0.0, 0.3] if k == 2 else None, set_temp_after=None,
+                          keep=0.99, cap=12, outputs=1 + k % 2, classes=2, pickle=bool(k % 2), dseed=r.randint(0, 10 ** 6),
+                          yoffset=[20000.0, -3000.0, 20000.0][k]))
     # nodes whose gating scale sits on the floor (inter-quartile range 0 along an axis-aligned split), soft routing, fixed and tuned
     for k in range(4):
         cases.append(dict(family='fitted-models', task=['reg', 'class'][k % 2], kernel=list(KERNELS[k % len(KERNELS)]), q=1.0, diag=False,
